@@ -45,7 +45,7 @@ OUTCOMES = ['ok', 'listed', 'unlisted', 'exc-listed', 'exc-unlisted', 'undecodab
 FLOORS = {'*': {**{f'last:{o}': 5 for o in OUTCOMES}, 'real-cancellation': 5, 'multi-attempt-3-tracers': 20,
                 'client:sync': 200, 'client:async': 200, 'tracers:0': 20, 'tracers:1': 50, 'tracers:2': 50, 'tracers:3': 50,
                 'ctx:supplied': 100, 'ctx:default': 100, 'kind:single': 100, 'kind:batch': 50, 'kind:notification': 30,
-                'attempts>=2': 100}}
+                'attempts>=2': 100, 'concurrent-requests': 100}}
 
 
 class Abort(BaseException):
@@ -338,12 +338,102 @@ def run_case(ctx, n_tracers, attempts, script, kind, supplied_ctx, is_async):
     ctx.ok(fam + ':' + consumed[-1], cls, sample=wit)
 
 
+def run_concurrent(ctx, n_tracers, outcomes, release_order, supplied):
+    """several requests in flight through ONE async client; the transport parks each of them and the driver releases them
+    in `release_order`. Every request must see its own begin and completion with its own trace context."""
+    log = []
+    tracers = [Rec(i, log) for i in range(n_tracers)]
+    n = len(outcomes)
+    gates = {}
+    raised = {}
+
+    async def transport(text, is_notification, kwargs):
+        req = json.loads(text)
+        k = req['params'][0]
+        gates[k] = asyncio.get_running_loop().create_future()
+        await gates[k]
+        o = outcomes[k]
+        if o == 'exc':
+            raised[k] = ConnectionError(f'req{k}')
+            raise raised[k]
+        if o == 'error':
+            return json.dumps({'jsonrpc': '2.0', 'id': req['id'], 'error': {'code': 999, 'message': 'm', 'data': k}})
+        return json.dumps({'jsonrpc': '2.0', 'id': req['id'], 'result': f'ok{k}'})
+
+    client = clientside.AsyncClient(transport, tracers=tracers)
+    reqs = [v20.Request('m', [k], id=100 + k) for k in range(n)]
+    ctxs = [SimpleNamespace(tag=k) if supplied[k] else None for k in range(n)]
+
+    async def driver():
+        tasks = [asyncio.ensure_future(client.send(reqs[k], _trace_ctx=ctxs[k])) for k in range(n)]
+        for _ in range(50):
+            await asyncio.sleep(0)
+            if len(gates) == n:
+                break
+        for k in release_order:
+            gates[k].set_result(None)
+            for _ in range(6):
+                await asyncio.sleep(0)
+        return await asyncio.gather(*tasks, return_exceptions=True)
+
+    st, results = clientside.outcome_of(lambda: driver(), True)
+    ctx.hit('concurrent-requests')
+    cls = ('concurrent', n_tracers, tuple(outcomes), tuple(release_order), tuple(supplied))
+    fam = f'concurrent:{n}-in-flight:t{n_tracers}'
+    wit = dict(tracers=n_tracers, outcomes=outcomes, release_order=release_order, caller_supplied_context=supplied,
+               events=[(e[0], e[1], reqs.index(e[3]) if e[3] in reqs else None, type(e[4]).__name__) for e in log], results=[st, results])
+    if st != 'ret':
+        ctx.violation(f'concurrent-driver-raised:{type(results).__name__}', fam, cls, **wit)
+        return
+    problem = None
+    for k in range(n):
+        evs = [e for e in log if e[3] is reqs[k]]
+        begins = [e for e in evs if e[1] == 'begin']
+        comps = [e for e in evs if e[1] in ('end', 'error')]
+        if [e[0] for e in begins] != list(range(n_tracers)) or [e[0] for e in comps] != list(range(n_tracers)):
+            problem = 'begin-or-completion-missing-or-repeated'
+            break
+        want_kind = 'error' if outcomes[k] == 'exc' else 'end'
+        if any(e[1] != want_kind for e in comps):
+            problem = 'completion-kind-wrong'
+            break
+        ctxset = {id(e[2]) for e in begins + comps}
+        if len(ctxset) > 1:
+            problem = 'completion-with-a-different-context-than-begin'
+            break
+        if supplied[k] and begins and begins[0][2] is not ctxs[k]:
+            problem = 'caller-supplied-context-not-used'
+            break
+        if want_kind == 'error' and comps and (comps[0][4] is not raised.get(k) or results[k] is not raised.get(k)):
+            problem = 'error-carries-a-different-exception-object'
+            break
+        if want_kind == 'end' and comps and (comps[0][4] is not results[k]):
+            problem = 'end-carries-a-different-response'
+            break
+    if n_tracers and not problem:
+        # two requests must not share a library-created context
+        firsts = [next(e[2] for e in log if e[3] is reqs[k] and e[1] == 'begin') for k in range(n)]
+        if len({id(c) for c in firsts}) != n:
+            problem = 'two-requests-share-one-trace-context'
+    if problem:
+        ctx.violation(problem + ':concurrent-requests', fam, cls, **wit)
+        return
+    ctx.ok(fam, cls, sample=wit)
+
+
 def gen(ctx):
     rng = ctx.rng
     deep = ctx.thorough
     full = True
     k = 0
     sync_outs = [o for o in OUTCOMES if o != 'cancel-task']
+    for n_req in (2, 3):
+        for outcomes in itertools.product(('ok', 'error', 'exc'), repeat=n_req):
+            for order in itertools.permutations(range(n_req)):
+                for n_tr in ((1, 2) if n_req == 3 else (1, 2, 3)):
+                    k += 1
+                    sup = [bool((k >> i) & 1) for i in range(n_req)]
+                    yield 'concurrent', dict(n_tracers=n_tr, outcomes=list(outcomes), release_order=list(order), supplied=sup)
     for attempts in (None, 0, 1, 2, 3):
         n = attempts or 0
         length = n + 1
@@ -363,4 +453,4 @@ def gen(ctx):
                                        supplied_ctx=bool((k // 2) % 2), is_async=is_async)
 
 
-KINDS = {'case': run_case}
+KINDS = {'case': run_case, 'concurrent': run_concurrent}
